@@ -414,3 +414,27 @@ Definition check_rename_case_d (x : string) (ty : rtype) (of : string) (a b : Q)
            (r' : routine) (i i' : impl_result) (back : list (string * string))
            (inexact : bool) (pts : list (list (string * Q))) : list nat * list nat :=
   (tie_model (compile_routine_d [leaf_calc_e x ty of a b] r') i' inexact pts, rename_spec i i' back inexact pts).
+
+(* ---------- C16: the hierarchy whose highwater is taken is the hierarchy that was handed over ----------
+   every port size of the real compilation against the compile model (the resources are other properties' business) *)
+Fixpoint cmp_port_sizes (fuel : nat) (inexact : bool) (pts : list (string -> Q)) (a b : ctree expr) : list nat :=
+  match fuel with
+  | O => [1%nat]
+  | S f =>
+      (flat_map (fun p => match lookup (fst p) (ct_ports b) with
+                          | Some (d, v) => (if dir_eqb d (fst (snd p)) then 0%nat else 1%nat)
+                                             :: map (fun r => cmpx inexact r (snd (snd p)) v) pts
+                          | None => [1%nat]
+                          end) (ct_ports a)
+       ++ [if Nat.eqb (List.length (ct_ports a)) (List.length (ct_ports b)) then 0%nat else 1%nat]
+       ++ flat_map (fun k => match find_ct (ct_name k) (ct_children b) with
+                             | Some k' => cmp_port_sizes f inexact pts k k'
+                             | None => [1%nat]
+                             end) (ct_children a))%list
+  end.
+
+Definition tie_ports (r : routine) (impl : impl_result) (inexact : bool) (pts : list (list (string * Q))) : list nat * list nat :=
+  (match compile_routine r, impl with
+   | Ok m, IOk t => cmp_port_sizes (S (ct_height m)) inexact (points_of pts) m t
+   | _, _ => []
+   end, []).
